@@ -1,12 +1,13 @@
 """C08 -- database discovery is sound and database verification notices violating rows."""
 from runner.core import Context, finish
 
-MODULES = ['contracts.constraints']
+MODULES = ['contracts.constraints', 'contracts.dbcalc']
 PID = 'C08'
 
 
 def targets():
     import contracts.constraints as cc
+    import contracts.dbcalc
     from pyvc.contracts import REGISTRY
     return [i for i, c in REGISTRY.items() if not c.assumed and 'C08' in c.props]
 
